@@ -20,12 +20,15 @@ MODULES = ['dassh.assembly', 'dassh.table']
 PROPERTY = 'C15'
 LEAN_LEMMAS = ['running_max_ge', 'running_max_attained']        # /verif/lean/Ghost.lean, checked in the thorough tier
 FUNCTIONS = ['dassh.assembly:Assembly._update_peak_coolant_temps', 'dassh.assembly:Assembly._update_peak_duct_temps',
-             'dassh.assembly:Assembly._update_peak_pin_temps', 'dassh.assembly:Assembly.pin_temp_array']
+             'dassh.assembly:Assembly._update_peak_pin_temps', 'dassh.assembly:Assembly.pin_temp_array',
+             'dassh.assembly:Assembly.calculate (order of region update, pressure drop, peak updates)',
+             'dassh.table:DuctTempTable._get_avg_duct_face_temp']
 ASSUMPTIONS = ['temperatures are > 0 K so that the initial peak 0.0 is exceeded at the first plane',
                'the whole-sweep statement is the induction over steps of the proved fold step (maximum of a sequence = '
                'fold of binary max; first height of attainment because the update is strict)']
 NOT_DECIDED = ['text tables (CoolantTempTable, PeakPinTempTable; DuctTempTable beyond the bounded run-time contract): '
-               'formatting and unit conversion of the printed numbers', 'outlet / average temperatures in the summary tables']
+               'formatting and unit conversion of the printed numbers',
+               'outlet / average temperatures of the coolant summary table (the duct table\'s face averages are under contract)']
 
 
 class _Region:
